@@ -264,6 +264,9 @@ func (s *storeRunner) step(r *rng, bad int) {
 		tok, tokTok := "", "-"
 		if r.chance(bad, 200) {
 			size, sizeTok = r.pick([]string{"abc", "1.5", "99999999999999999999"}), "bad"
+		} else if r.chance(bad, 200) { // negative page size (D19)
+			size = r.pick([]string{"-1", "-2", "-100"})
+			sizeTok = size
 		}
 		if r.chance(bad, 200) {
 			tok, tokTok = r.pick([]string{"zzz", "123", "not-a-uuid"}), "bad"
@@ -280,7 +283,11 @@ func (s *storeRunner) step(r *rng, bad int) {
 		if r.chance(bad, 200) {
 			tok, tokTok = "zzz", "bad"
 		}
-		resp, err := rts.NewReadServiceClient(e.rconn).ListRelationTuples(ctx, &rts.ListRelationTuplesRequest{RelationQuery: q, PageSize: bigPage, PageToken: tok})
+		psize := int32(bigPage)
+		if r.chance(bad, 200) {
+			psize = []int32{-1, -2, -2147483648}[r.intn(3)]
+		}
+		resp, err := rts.NewReadServiceClient(e.rconn).ListRelationTuples(ctx, &rts.ListRelationTuplesRequest{RelationQuery: q, PageSize: psize, PageToken: tok})
 		code := grpcCode(err)
 		list := ""
 		if err == nil {
@@ -290,7 +297,7 @@ func (s *storeRunner) step(r *rng, bad int) {
 			}
 			list = fmtList(ts, resp.NextPageToken == "")
 		}
-		s.out.emit(fmt.Sprintf("listgrpc %s %d %s", fmtPQuery(q), bigPage, tokTok), s.obs(code, list))
+		s.out.emit(fmt.Sprintf("listgrpc %s %d %s", fmtPQuery(q), psize, tokTok), s.obs(code, list))
 		s.out.stat(fmt.Sprintf("listgrpc.%d", code))
 	}
 }
